@@ -80,6 +80,7 @@ class Ctx:
         self.counter = {}
         self.stats = stats
         self.decisions = 0
+        self.known = {}             # id of a decided condition -> (condition, value) on this path
         self.notes = []             # free-form per-path notes (e.g. fallback forks)
         self.defs = []              # definitional axioms (sqrt etc.)
         self.memo = {}              # per-path memo for stubs (function of structural argument)
@@ -216,6 +217,16 @@ class Ctx:
             return True
         if z3.is_false(c):
             return False
+        # the same condition (structurally: z3 terms are hash-consed) decided earlier on this path keeps its value - no
+        # solver call, no trail entry (re-executions rebuild this table in the same order)
+        hit = self.known.get(c.get_id())
+        if hit is not None and hit[0].eq(c):
+            return hit[1]
+        val = self._branch(c, payload)
+        self.known[c.get_id()] = (c, val)
+        return val
+
+    def _branch(self, c, payload):
         if self.pos < len(self.trail):
             val, _, forced, _p = self.trail[self.pos]
             self.pos += 1
